@@ -28,7 +28,10 @@ def _cap_unpack(it, args, kwargs, fr, node):
     return VObj(None, {}, 'capability')
 
 
-FMT = '(data0[0] == 255 and len(data0) >= 2 and data0[1] == 255)'
+# RFC 9072 section 2: the extended encoding is in use when the Non-Ext OP Type (second octet) is 255; the Non-Ext OP Len
+# (first octet) SHOULD be 255 and MUST be ignored on receipt -- a zero length still means "no optional parameter".  (The
+# first version of this line required BOTH octets to be 255: copied from the code, it carried its defect.)
+FMT = '(data0[0] != 0 and len(data0) >= 2 and data0[1] == 255)'
 L16 = '(data0[2] * 256 + data0[3])'
 
 contract(
@@ -48,9 +51,9 @@ contract(
             'entry_lets': {'params0': 'data'},
             'subviews': {'data': 'params0'},
             'inv': [
-                # WHICH bytes are the parameters: RFC 9072 extended format iff the first two octets are both 255
-                # (length 255 followed by type 255), otherwise the classic one-octet length -- including a classic
-                # OPEN that carries exactly 255 octets of parameters
+                # WHICH bytes are the parameters: RFC 9072 extended format iff the type octet is 255 (whatever the non-zero
+                # length octet says), otherwise the classic one-octet length -- including a classic OPEN that carries
+                # exactly 255 octets of parameters
                 f'voff(params0) == voff(data0) + (4 if {FMT} else 1)',
                 f'len(params0) == ({L16} if {FMT} else data0[0])',
                 'voff(data) + len(data) == voff(params0) + len(params0)',
